@@ -232,6 +232,10 @@ func histOracle(seed uint64, steps int, mode replicaMode) ([]string, int) {
 			cs = c.genCase(o, rng, ts)
 		}
 		c.deliver(o, cs, "7vals", true, &log)
+		if rng.Chance(20) {
+			// the same commit relayed a second time: stale by now, refused with whatever error the chain words
+			c.deliver(o, cs, "7vals", true, &log)
+		}
 		for _, pair := range o.Pairs {
 			t.Add("PRICE %s %v", pair, o.Prices()[pair])
 		}
@@ -351,7 +355,7 @@ func histPermHook(seed uint64, steps int, mode replicaMode) ([]string, int) {
 }
 
 func checkC18(run *mon.Run, rng *mon.Rand, thorough bool) {
-	run.Rule = "N fresh replicas (4 quick, 16 thorough) execute the same seeded history - half of them one after the other, half concurrently in their own goroutines (thorough tier under the race detector) - and the complete transcripts (every response, full error string, gas, event list in order, validator-update lists in order, store digest after every block, genesis exports) are compared line by line with replica 0. Each replica is an independent draw of Go's randomised map iteration orders and runs at a different wall-clock time. Histories: two-chain bridge traffic with multi-message transactions, validator bursts with >=3 removals per block and executor-change plans, 7-validator x 6-pair oracle updates, 4-bridge L1 world with export/re-import. Distinct non-trivial = (history kind, seed) whose transcripts contained order-sensitive steps on all replicas"
+	run.Rule = "N fresh replicas (4 quick, 16 thorough) execute the same seeded history - half of them one after the other, half concurrently in their own goroutines (thorough tier under the race detector) - and the complete transcripts (every response, full error string, gas, event list in order, validator-update lists in order, store digest after every block, genesis exports) are compared line by line with replica 0. Each replica is an independent draw of Go's randomised map iteration orders and runs at a different wall-clock time; the sequential ones run in different process time zones. Histories: two-chain bridge traffic with multi-message transactions, validator bursts with >=3 removals per block and executor-change plans, 7-validator x 6-pair oracle updates, 4-bridge L1 world with export/re-import. Distinct non-trivial = (history kind, seed) whose transcripts contained order-sensitive steps on all replicas"
 	run.Assumptions = []string{"an unsorted 3-element map iteration is caught with probability 1-(1/6)^(N-1) per order-sensitive step", "telemetry timers are not state", "the harness itself is deterministic given the seed (checked implicitly: any harness nondeterminism would also show up as a mismatch)"}
 	for _, c := range []string{"C18.replicas_identical", "C18.concurrent_replicas_identical"} {
 		run.Declare(c, 4)
@@ -367,14 +371,19 @@ func checkC18(run *mon.Run, rng *mon.Rand, thorough bool) {
 			transcripts := make([][]string, N)
 			sens := make([]int, N)
 			c18WallAnchor.Store(time.Now().UnixNano())
-			// first half sequentially
+			// first half sequentially, each replica's process in another time zone (the zone is process-wide state, so it
+			// is only varied while no other replica is running)
+			origLocal := time.Local
+			zones := []*time.Location{time.UTC, time.FixedZone("east", 9*3600), time.FixedZone("west", -5*3600), time.FixedZone("odd", 5*3600+45*60)}
 			for i := 0; i < N/2; i++ {
+				time.Local = zones[i%len(zones)]
 				if h.name == "oracle-clock" && i > 0 {
 					time.Sleep(800 * time.Millisecond) // workload spacing only; no verdict depends on it
 				}
 				transcripts[i], sens[i] = h.f(seed, steps, modeOf(i))
 				run.Evaluations++
 			}
+			time.Local = origLocal
 			// second half concurrently
 			var wg sync.WaitGroup
 			for i := N / 2; i < N; i++ {
